@@ -139,7 +139,9 @@ fn text(non_ascii: bool) -> impl Strategy<Value = String> {
         w => prop::sample::select(vec!["é", "ж", "中", "😀", "ß", "Ω"]).prop_map(|s| s.to_string()),
         1 => prop::sample::select(vec!["null", "true", "false", "0", "-1", "1e5", " ", "  "]).prop_map(|s| s.to_string()),
     ];
-    prop_oneof![1 => Just(String::new()), 8 => proptest::collection::vec(ch, 1..16).prop_map(|v| v.concat())]
+    prop_oneof![1 => Just(String::new()), 16 => proptest::collection::vec(ch.clone(), 1..16).prop_map(|v| v.concat()),
+        // long strings (hundreds to thousands of characters)
+        1 => (proptest::collection::vec(ch, 1..6), prop::sample::select(vec![100usize, 255, 256, 1000, 4096, 8000])).prop_map(|(v, n)| { let unit = v.concat(); let mut s = String::new(); while s.chars().count() < n { s.push_str(&unit); } s })]
 }
 
 fn int128() -> impl Strategy<Value = String> {
